@@ -96,6 +96,13 @@ def cases(kind, tier, seed):
                 yield dict(specs=[a, b], policy=pol, sort_charge=sc)
         for specs, nc, names, mod in EXPLICIT:
             yield dict(specs=specs, policy=nc, sort_charge=True, new_names=names, new_mod=mod)
+        # explicit integer combinations of one charge per site (incl. overlapping partial fermion numbers):
+        # every ordered list of up to `nmax` distinct non-zero rows with coefficients from `coeff`
+        for specs, coeff, nmax in (([POOL[2]] * 3, (0, 1), 3), ([POOL[2]] * 2, (-1, 0, 1), 2), ([POOL[2], POOL[0], POOL[2]], (0, 1), 2)):
+            rows = [r for r in itertools.product(coeff, repeat=len(specs)) if any(r)]
+            for nrows in range(1, nmax + 1):
+                for mat in itertools.permutations(rows, nrows):
+                    yield dict(specs=specs, policy=[[[f, s, 0] for s, f in enumerate(r) if f] for r in mat], sort_charge=True, seed=seed)
     elif kind == 'species':
         for cls, kw in (('FermionSite', {}), ('FermionSite', {'filling': 0.25}), ('BosonSite', {'Nmax': 2})):
             for cN, cSz in itertools.product(CONS3, SZ3):
